@@ -82,6 +82,14 @@ def build(ex):
             ic = ex_.ghost.setdefault('__callable_pred__', z3.Function('is_callable', Val, smt.Bool))
             tt = attrs['_target'].t
             ex_.assume(z3.Or(tt == Val.v_none, tt == Val.v_bool(z3.BoolVal(False)), ic(tt)))
+            # C16 across a restart: `final_state` is the state the old child assigned last.  The thread and remote kinds have it in _user_state already (shared
+            # object / front-end thread, C16.L4r); the process kind gets it only when _get_result() reads the child's final message (C16.L4b) - until then the
+            # parent's copy is the stale construction-time value
+            final_state = I.sym('final_state')
+            ex_.ghost['final_state'] = final_state
+            ex_.ghost['sync_by_get_result'] = (not remote and pipe_kind == 'Pipe')
+            if not ex_.ghost['sync_by_get_result']:
+                attrs['_user_state'] = final_state
             self_v = ex_.alloc(HObj(ci, attrs))
             env['self'] = self_v
             env['args'] = VTuple([])
@@ -121,6 +129,9 @@ def build(ex):
 
             def get_result(I2, fi, a, k, node, sc):
                 # any value: "a non-None result may be reported while the child is still alive" (Worker._get_result)
+                if ex_.ghost['sync_by_get_result'] and isinstance(a[0], VRef) and '_user_state' in ex_.heap[a[0].addr].attrs:
+                    # C16.L4b: on a dead process worker _get_result() takes the state over from the child's final message
+                    ex_.heap[a[0].addr].attrs['_user_state'] = ex_.ghost['final_state']
                 return VSym(ex_.fresh('final_result', Val))
 
             def start(I2, fi, a, k, node, sc):
@@ -227,6 +238,16 @@ def build(ex):
         fresh_channels.__doc__ = ('the results pipe of the new incarnation is the caller\'s pipe if one was given, else a pipe created by this call' +
                                   ('' if remote else '; its args pipe is created by this call') + ' (nothing queued or unread from the previous incarnation is reachable)')
 
+        def state_passed_on(c):
+            ex_ = c.ex
+            h = ex_.heap[c.env['self'].addr]
+            v = attr_term(ex_, h, '_user_state')
+            if v is None:
+                return z3.BoolVal(False)
+            return lower(v, ex_) == lower(ex_.ghost['final_state'], ex_)
+        state_passed_on.__doc__ = ('C16 across a restart: the new incarnation starts from the state the old child assigned LAST - for the process kind that state '
+                                   'reaches the parent only through _get_result(), on every way the old incarnation was stopped (waited for, or terminated)')
+
         def live_and_open(c):
             ex_ = c.ex
             h = ex_.heap[c.env['self'].addr]
@@ -242,7 +263,7 @@ def build(ex):
         return Contract(PWK + '.restart', lid=lid, name=f'C17.{lid} restart of a {kind_cls.rsplit(".", 1)[1]}: never abandons a running child; new incarnation equivalent, fresh, live',
                         params={'self': ('const', None), 'args': ('const', None), 'results_pipe': ('const', None), 'timeout': ('const', None), 'kwargs': ('const', None)},
                         self_class=kind_cls, setup=setup,
-                        ensures=[equivalent, fresh_channels, live_and_open],
+                        ensures=[equivalent, fresh_channels, live_and_open, state_passed_on],
                         all_exits=[never_abandons, untouched_if_not_stopped],
                         raises={'RuntimeError': None}, raises_only=['RuntimeError'],
                         options={'recv_closed_check': False, 'assert_mode': 'fork'})
